@@ -95,6 +95,9 @@ fn main() {
         drop(c);
         return;
     }
+    if args[0] == "--probe" && args.get(1).map(|s| s.as_str()) == Some("fsfault") {
+        std::process::exit(c02::fsfault_main());
+    }
     if args[0] == "--probe" && args.get(1).map(|s| s.as_str()) == Some("viewrun") {
         std::process::exit(c02::viewrun_main(&args[2..]));
     }
